@@ -3,6 +3,7 @@ package tv
 import (
 	"context"
 	"fmt"
+	"strings"
 
 	cyfmt "github.com/specterops/dawgs/cypher/models/cypher/format"
 	"github.com/specterops/dawgs/cypher/models/pgsql/optimize"
@@ -94,6 +95,7 @@ func RunC02(run *core.Run, backend *SQLBackend, queries []Query, b Bounds) {
 			continue
 		}
 		run.Add("programs", 1)
+		gm.SortLists = strings.Contains(strings.ToLower(q.Text), "collect(")
 
 		type variant struct {
 			name string
